@@ -55,6 +55,9 @@ pub fn check(c: &Case) -> CheckResult {
             o.class_if(m >= 24, "blend:nonseparable");
         }
         o.class(op.kind());
+        if let Some(SrcSpec::Linear { x0, y0, x1, y1, .. }) = super::c02::src_of(op) {
+            o.class_if(x0 == x1 && y0 == y1, "src:zero-length-gradient");
+        }
     }
     o.nontrivial = interesting;
     Ok(o)
@@ -217,7 +220,7 @@ pub fn property(ctx: &Ctx) -> Property {
     let steer = ctx.excluded(NONSEP_KEY);
     Property {
         id: "C18",
-        rule: "part scenes: nested scenes (clips, layers with any opacity/blend, fills, fill_rects, strokes, masks, clear, image draws; solid/image/gradient sources, 28 modes, alpha in [0,1], all transform classes) on premultiplied initial contents; after every call every pixel of get_data() must satisfy r,g,b <= a. part sweep: exhaustive blend mode (28) x opacity-coverage byte {0,1,127,128,254,255} x {no clip, partial clip path} over a premultiplied boundary lattice of (source, destination) pairs, delivered through a layer. part conv: SolidSource::from_unpremultiplied_argb and From<Color> for all 256 alphas x 256 channel values: premultiplied and = round(a*c/255). Non-trivial: a call with a mode outside {Dst,Src,Clear,SrcOver} on a destination holding translucent pixels; distinct by hash of the case.",
+        rule: "part scenes: nested scenes (clips, layers with any opacity/blend, fills, fill_rects, strokes, masks, clear, image draws; solid/image/gradient sources incl. zero-length linear gradients, 28 modes, alpha in [0,1], all transform classes) on premultiplied initial contents; after every call every pixel of get_data() must satisfy r,g,b <= a. part sweep: exhaustive blend mode (28) x opacity-coverage byte {0,1,127,128,254,255} x {no clip, partial clip path} over a premultiplied boundary lattice of (source, destination) pairs, delivered through a layer. part conv: SolidSource::from_unpremultiplied_argb and From<Color> for all 256 alphas x 256 channel values: premultiplied and = round(a*c/255). Non-trivial: a call with a mode outside {Dst,Src,Clear,SrcOver} on a destination holding translucent pixels; distinct by hash of the case.",
         assumptions: vec![
             "checked build (overflow checks + debug assertions): sw_composite::pack_argb32's own debug assertion r,g,b <= a is live and counts as the same invariant; its known failures in the four non-separable modes are listed findings",
             "a second pass (sweep + 20% of the scenes) runs in a build without overflow checks and debug assertions (what users ship), where arithmetic slips wrap instead of panicking; see coverage.unchecked_profile",
@@ -227,7 +230,7 @@ pub fn property(ctx: &Ctx) -> Property {
             enum_part("sweep", 28 * 12, 28 * 12, sweep_decode, move |c| check_sweep(c, steer)),
             enum_part("conv", 256, 256, |_t, i| ConvCase { a: i as u8 }, check_conv),
         ],
-        min_class_fraction: vec![("scenes", "blend:separable-or-nonseparable", 0.2), ("scenes", "op:pop_layer", 0.2)],
+        min_class_fraction: vec![("scenes", "blend:separable-or-nonseparable", 0.2), ("scenes", "op:pop_layer", 0.2), ("scenes", "src:zero-length-gradient", 0.02)],
         panic_is_violation: false,
     }
 }
